@@ -138,6 +138,12 @@ func c09StepInvariant(s *buffer.Buffer, op *bufOp, s2 *buffer.Buffer) string {
 	if !utf8.Valid(pending) || ((op.Kind == 'w' || op.Kind == 'b') && !op.Valid) {
 		return ""
 	}
+	if op.Kind == 'z' {
+		if len(f2) != 0 {
+			return fmt.Sprintf("state %+v --Reset--> prints %q, want nothing", st, f2)
+		}
+		return ""
+	}
 	c1 := s.VerifClone()
 	f1 := []byte(c1.RedactableString())
 	var addS, addE []byte
